@@ -201,6 +201,11 @@ def run_C10(ctx):
     r2 = ctx.tlc("MC_C10cyc", timeout=900)
     res2 = ctx.vh_isolated("c10-replay", r2.out, chunk=400, timeout=120, sig_prefix="c10")
     ctx.absorb(res2, "G:c10-replay(cycles)")
+    # nesting shapes: a leaf macro pasted from a middle and a top macro, on the top level of their bodies and among the children
+    # of their directives, in front of and behind other items (every expansion is a new copy)
+    rn = ctx.tlc("MC_C10nest", cfg="MC_C10nest_quick.cfg" if ctx.quick else "MC_C10nest_thorough.cfg", timeout=3300)
+    resn = ctx.vh("c10-replay", rn.out, timeout=3300)
+    ctx.absorb(resn, "G:c10-replay(nesting shapes)")
 
 
 # ------------------------------------------------------------------ C07 / C14 / C09
@@ -443,8 +448,13 @@ def run_C16(ctx):
     res4 = ctx.vh("serial-replay", r2.out, "toks:" + rs.out, timeout=3000)
     ctx.absorb(res4, "G:serial-replay(paste sites)")
     rm = ctx.tlc("MC_C02", cfg="MC_C02_gen.cfg", timeout=3300)
-    res5 = ctx.vh("serial-replay", r2.out, "model:" + rm.out, env={"VH_SRC_STEP": "9" if ctx.quick else "1"}, timeout=3300)
+    res5 = ctx.vh("serial-replay", r2.out, "model:" + rm.out, env={"VH_SRC_STEP": "23" if ctx.quick else "1"}, timeout=3300)
     ctx.absorb(res5, "G:serial-replay(block model)")
+    # ... and on the schema-feature matrix of C17: documents on which the export answers with an error value (a failed
+    # conversion must fail again, with the same error, and must not leave a half-built document behind)
+    rc = ctx.tlc("MC_C17", timeout=600)
+    res6 = ctx.vh("serial-replay", r2.out, "cells:" + rc.out, timeout=3300)
+    ctx.absorb(res6, "G:serial-replay(schema-feature matrix)")
     ctx.cov["exhaustive"] = True
     st = ctx.vh("serial-replay", r2.out, "docs", "selftest")
     ctx.selftest(st["n_mismatch"] >= 0.4 * st["cases"], "C16 G: altered reference bytes are noticed")
@@ -455,7 +465,8 @@ def _sweep(ctx, checks, nmut):
     """accepted projects: the documents of the block model, the corpus, and seeded mutations of the corpus"""
     cfg = "MC_C02_gen.cfg" if ctx.quick else "MC_C02_quick.cfg"
     r = ctx.tlc("MC_C02", cfg=cfg, timeout=3300)
-    a = ctx.vh("sweep", checks, ("modelall:" if checks == "c06" else "model:") + r.out, timeout=3300)
+    # (C06: annotations written with runs of blanks, tabs and line breaks -- the builds must not leave anything behind in the file)
+    a = ctx.vh("sweep", checks, ("modelall:" if checks == "c06" else "model:") + r.out, timeout=3300, env={"VH_WIDE_ANN": "1"} if checks == "c06" else None)
     b = ctx.vh("sweep", checks, "corpus:" + REPO, nmut, ctx.seed, timeout=3300)
     c = ctx.vh("sweep", checks, "docs", timeout=600)
     return a, b, c
@@ -702,6 +713,11 @@ def run_C01(ctx):
     r3 = ctx.tlc("MC_C07", cfg="MC_C07_quick.cfg", timeout=3000)
     res3 = ctx.vh_isolated("c07-replay", r3.out, chunk=20000, timeout=900, sig_prefix="c01")
     ctx.absorb(_only(res3, ["c01:", "c07:panic"]), "G:c07-replay(include graphs, crash-only)")
+    # every document of the block model through the build, in workers (a crash of the build phase - catalog setters, tags, path
+    # variables - is attributed to its document)
+    rdoc = ctx.tlc("MC_C02", cfg="MC_C02_gen.cfg", timeout=3300)
+    resdoc = ctx.vh_isolated("doc-replay", rdoc.out, chunk=2000, timeout=900, sig_prefix="c01")
+    ctx.absorb(_only(resdoc, ["c01:", "doc:panic", "layout:panic"]), "G:doc-replay(block-model documents, crash-only)")
     r3b, res3b = _include_random(ctx, sig_prefix="c01")
     ctx.absorb(_only(res3b, ["c01:", "c07:panic"]), "V:c07-replay(random include projects in two directories, crash-only)")
     # type graphs (references, 'or', properties, items, allOf; cyclic or not) x every site that uses a type
@@ -757,8 +773,8 @@ def run_C08(ctx):
     std = ctx.vh("desc-replay", rd.out, "selftest")
     ctx.selftest(std["n_mismatch"] == std["cases"], "C08 G: a wrong description text is noticed")
     r3 = ctx.tlc("MC_C02", cfg="MC_C02_gen.cfg" if ctx.quick else "MC_C02_quick.cfg", timeout=3300)
-    res3 = ctx.vh("doc-replay", r3.out, env={"VH_LAYOUTS": "6", "VERIF_SEED": str(ctx.seed), "VH_IGNORE": "uenums"}, timeout=3300)
-    ctx.absorb(_only(res3, ["layout:"]), "G:doc-replay(6 layouts)")
+    res3 = ctx.vh("doc-replay", r3.out, env={"VH_LAYOUTS": "4" if ctx.quick else "8", "VERIF_SEED": str(ctx.seed), "VH_IGNORE": "uenums"}, timeout=3300)
+    ctx.absorb(_only(res3, ["layout:"]), "G:doc-replay(4 / 8 seeded layouts)")
     res4 = ctx.vh("c08-corpus", REPO, 2 if ctx.quick else 1, timeout=3000)
     ctx.absorb(res4, "V:c08-corpus")
     ctx.cov["exhaustive"] = True
